@@ -132,7 +132,7 @@ structure CTF (α : Type) where
   connLen : α
   skin : α
   denom : α
-  deriving Repr, Inhabited
+  deriving Repr, Inhabited, DecidableEq
 
 /-- Which of the source's cases was taken (for distribution statistics and case splits). -/
 inductive Branch
